@@ -286,19 +286,20 @@ func (c *reusableConn) closeWithErr(err error) {
 	if err == nil {
 		err = net.ErrClosed
 	}
+	// Remove c from the pool outside closeOnce: ReuseConnTransport.Close() runs
+	// closeOnce (closeWithErrByTransport) while holding t.m, so taking t.m inside
+	// closeOnce would deadlock with it. Do it first, so that c is gone from the
+	// pool before anybody is notified of its closure.
+	c.t.m.Lock()
+	delete(c.t.conns, c)
+	delete(c.t.idleConns, c)
+	c.t.m.Unlock()
+
 	c.closeOnce.Do(func() {
 		c.closeErr = err
 		c.c.Close()
 		close(c.closeNotify)
 	})
-
-	// Remove c from the pool outside closeOnce: ReuseConnTransport.Close() runs
-	// closeOnce (closeWithErrByTransport) while holding t.m, so taking t.m inside
-	// closeOnce would deadlock with it.
-	c.t.m.Lock()
-	delete(c.t.conns, c)
-	delete(c.t.idleConns, c)
-	c.t.m.Unlock()
 }
 
 func (c *reusableConn) closeWithErrByTransport(err error) {
